@@ -11,6 +11,7 @@ SOURCES = {"hta/analyzers/breakdown_analysis.py": ["get_gpu_kernel_breakdown", "
                                                    "get_gpu_user_annotation_breakdown"],
            "hta/utils/utils.py": ["merge_kernel_intervals", "get_kernel_type", "is_comm_kernel", "is_memory_kernel", "is_compute_kernel"]}
 TRANSLATE = [translate.gen_kernel_rules]
+INPUT_CONTRACT = True        # the loaded frame is re-checked against the file (framework.input_contract)
 N_CASES = {"quick": 300, "thorough": 5000}
 RULE = ("generated file sets (free placement of device intervals on tiny time domains: identical, nested, touching, zero-length; computation, communication and "
         "memory kernels; few distinct names occurring several times so that bucketing happens; gpu_user_annotation events), 1-3 ranks; num_kernels in 1..12, "
